@@ -523,7 +523,7 @@ func runC23(u *Unit) {
 	// single-bit flips on a stride covering all 66 slots and the checksum
 	stride := 62
 	if u.Tier == "thorough" {
-		stride = 7
+		stride = 16
 	}
 	for off := r.IntN(stride); off < 4096; off += stride {
 		specs = append(specs, corruptSpec{Kind: "bitflip", Offset: off, Bit: r.IntN(8)})
@@ -592,15 +592,15 @@ func init() {
 		Stub:   []string{"O_DIRECT (buffered I/O on tmpfs)", "concurrent block reads/writes are atomic (4 KiB aligned I/O); tearing happens only with the crash", "process boundary (readers are tasks of other simulated nodes)"},
 		Assume: []string{"non-crash block I/O is atomic", "sampling over blocks, exhaustive over the listed crash variants per block"}})
 	Register(&CheckDef{ID: "C23", Level: "fault_enumeration",
-		Rule:    "each unit = one written registry block (3-66 handles, updated once so that a previous valid image exists); corruptions: single-bit flips on a stride over all slots plus each checksum byte, bursts of 2-64 bytes, zeroed tails; x backup file variants {none, valid image of the previous state, image with wrong checksum, empty file} x operation {Get, Update, UpdateNoLocks, Remove} through a fresh registry with empty caches. Without a valid backup every operation must return an error and leave the block bytes untouched. distinct_nontrivial = distinct (block, corruption, backup variant, operation)",
-		Exhaust: "thorough tier: every bit-flip position on a stride of 7 bytes x 4 backup variants x 4 operations per sampled block; quick tier: stride 62, one third of the product per unit",
+		Rule:    "each unit = one written registry block (3-66 handles, updated once so that a previous valid image exists); corruptions: single-bit flips on a stride over all slots plus each checksum byte, bursts of 2-64 bytes, zeroed tails; x backup file variants {none, valid image of the previous state, image with wrong checksum, empty file} x operation {Get, Get through a read-only registry, Update, UpdateNoLocks, Remove} through a fresh registry with empty caches. Without a valid backup every operation must return an error and leave the block bytes untouched. distinct_nontrivial = distinct (block, corruption, backup variant, operation)",
+		Exhaust: "thorough tier: every bit-flip position on a stride of 16 bytes x 4 backup variants x 5 operations per sampled block; quick tier: stride 62, one third of the product per unit",
 		Units: func(tier string) int {
 			if tier == "thorough" {
 				return 64
 			}
 			return 16
 		},
-		Run: runC23, Replay: replayBlock(false),
+		Run: runC23, Replay: replayBlock(false), UnitLimit: 1200e9,
 		Real:   []string{"fs.hashmap readAndRestoreBlock / unmarshalData (CRC) / COW handling, fs.registryOnDisk Get/Update/UpdateNoLocks/Remove"},
 		Stub:   []string{"O_DIRECT (buffered I/O on tmpfs)"},
 		Assume: []string{"all-zero blocks are valid by design and skipped"}})
